@@ -67,7 +67,8 @@ def main(chk):
             t = texts[i][1]
             lines = t.split('\n')
             ln = oc.get('line', 0)
-            width = len(lines[ln - 1]) if isinstance(ln, int) and 1 <= ln <= len(lines) else 0
+            # the engine reports the column in the line as it displays it: tabs expanded to 4 columns, carriage returns dropped
+            width = len(lines[ln - 1].replace('\r', '').replace('\t', '    ')) if isinstance(ln, int) and 1 <= ln <= len(lines) else 0
             calls.append({'id': '%d.%d' % (hi, i), 'kind': oc['kind'] if not oc['kind'].startswith('raw') else 'raw', 'digest': oc['digest'], 'line': oc.get('line', 0), 'col': oc.get('col', 0),
                           'nlines': len(lines), 'width': width, 'ref_kind': ref[i]['kind'] if not ref[i]['kind'].startswith('raw') else 'raw', 'ref_digest': ref[i]['digest'], '_i': i, '_raw': oc})
     path = os.path.join(engine.sub_dir('traces'), 'parse-%d.json' % os.getpid())
@@ -100,5 +101,5 @@ def main(chk):
                        'refutes HistoryFree when a successful parse leaves the previous error in place. Corpus scripts, grammar-aware mutations of them (token deleted / duplicated / swapped / replaced, '
                        'brackets unbalanced, truncated), random byte strings and control characters, and deeply nested expressions are parsed in several histories (fixed order and shuffles, valid and '
                        'invalid texts alternating); every call is validated by TLC (VTLParser_Trace): same outcome as in the reference history, an AST or a VTL error, syntax-error position inside the text')
-    chk.assumptions += ['the compiled C++ parser cannot be built in this sandbox: the calls go through the stand-in (the repository\'s serialized ATN interpreted by the ANTLR Java runtime in SLL mode), so '
+    chk.assumptions += ['the column of a syntax error is the column in the displayed source line (tabs expanded to 4 columns, as bindings.cpp does)', 'the compiled C++ parser cannot be built in this sandbox: the calls go through the stand-in (the repository\'s serialized ATN interpreted by the ANTLR Java runtime in SLL mode), so '
                         'what is exercised is the grammar, create_ast, the error construction and the Python tree walk - not bindings.cpp; where the stand-in itself gives up (time-out) the call is not judged']
